@@ -854,6 +854,7 @@ func asWorldGen(r *Run, rng *Rng, w *asWorld, steps int) {
 		}
 		l2++
 		do(fmt.Sprintf("l2blk %d %s", l2, ct))
+		do("epoch~") // first with the L1 info tree's nodes unreadable: the claim's proof cannot be computed, nothing may be sent
 		do("epoch")
 		c := openCert()
 		if c == nil {
@@ -988,7 +989,11 @@ func asWorldGen(r *Run, rng *Rng, w *asWorld, steps int) {
 			do(fmt.Sprintf("savefault %d", 1+rng.Intn(3)))
 			do("epoch")
 		case x < 97:
-			do("epoch?") // the records cannot be read during this tick: the node must neither build nor submit
+			if rng.Bool() {
+				do("epoch?") // the records cannot be read during this tick: the node must neither build nor submit
+			} else {
+				do("epoch~") // the L1 info tree's nodes cannot be read during this tick: no certificate with claims may be built
+			}
 		default:
 			l1++
 			do(fmt.Sprintf("l1blk %d %d", l1, rng.Intn(3)))
